@@ -554,7 +554,7 @@ func c18W6(c *ev.Ctx) {
 	cycles := c.Pick(150, 600)
 	interval := []time.Duration{50 * time.Microsecond, 100 * time.Microsecond, 300 * time.Microsecond}[r.Intn(3)]
 	delay := []time.Duration{0, 100 * time.Microsecond, 400 * time.Microsecond, time.Millisecond}[r.Intn(4)]
-	transitions, leaks := 0, 0
+	transitions, leaks, cancelled := 0, 0, 0
 	for i := 0; i < cycles; i++ {
 		tree := &slowTree{realTree: realTree{bt: structures.NewWritableBTreeV2(4096)}, delay: delay}
 		sr := rebalancing.NewSmartRebalancer(tree, rebalancing.WithReevalInterval(interval))
@@ -570,7 +570,9 @@ func c18W6(c *ev.Ctx) {
 			_ = sr.RecordOperation(op)
 		}
 		tree.slow.Store(true)
-		if err := sr.Start(context.Background()); err != nil {
+		ctx, cancel := context.WithCancel(context.Background())
+		if err := sr.Start(ctx); err != nil {
+			cancel()
 			c.Violation("smart-start-refused", err.Error())
 			return
 		}
@@ -578,6 +580,17 @@ func c18W6(c *ev.Ctx) {
 		wait := time.Duration(r.Intn(int(2*interval+2*delay)/1000+1)) * time.Microsecond
 		if wait > 0 {
 			time.Sleep(wait)
+		}
+		// one life in three ends through the parent context first (the monitor goroutine ends on
+		// its own), Stop comes afterwards: it still has to leave background rebalancing off
+		viaContext := i%3 == 2
+		if viaContext {
+			for k := 0; k < 200 && tree.enables.Load() == 0; k++ {
+				time.Sleep(interval)
+			}
+			cancel()
+			time.Sleep(2*interval + delay)
+			cancelled++
 		}
 		stopped := make(chan error, 1)
 		go func() { stopped <- sr.Stop() }()
@@ -587,13 +600,14 @@ func c18W6(c *ev.Ctx) {
 			c.Violation("stop-does-not-return:SmartRebalancer.Stop", map[string]any{"goroutines": libraryGoroutines()})
 			return
 		}
+		cancel()
 		if tree.enables.Load() > 0 {
 			transitions++
 		}
 		if tree.bgOn.Load() {
 			leaks++
 			if leaks == 1 {
-				c.Violation("background-rebalancing-on-after-Stop:SmartRebalancer", map[string]any{"cycle": i, "reeval_interval": interval.String(), "size_query_takes": delay.String(), "stop_after": wait.String(), "incremental_enabled_times": tree.enables.Load()})
+				c.Violation("background-rebalancing-on-after-Stop:SmartRebalancer", map[string]any{"cycle": i, "parent_context_cancelled_first": viaContext, "reeval_interval": interval.String(), "size_query_takes": delay.String(), "stop_after": wait.String(), "incremental_enabled_times": tree.enables.Load()})
 			}
 		}
 		_ = tree.DisableRebalancing()
@@ -602,6 +616,7 @@ func c18W6(c *ev.Ctx) {
 		c.Violation("goroutine-outlives-stop:"+goroutineLoop(left[0]), map[string]any{"left": left})
 	}
 	c.Count("W6:start_stop_cycles", int64(cycles))
+	c.Count("W6:cycles_ended_through_the_parent_context_before_Stop", int64(cancelled))
 	c.Count("W6:cycles_in_which_background_rebalancing_was_switched_on", int64(transitions))
 	if transitions == 0 {
 		c.Inconclusive("W6: no cycle reached the transition to incremental rebalancing")
@@ -632,7 +647,7 @@ var C18 = &ev.Property{
 	ID:    "C18",
 	Level: "exploration",
 	Race:  true,
-	Rule: "all workloads run in a binary built with the race detector; every detector report is a violation keyed by the first library frames of its two stacks. W1: 2-32 goroutines, each writing its own file from its own history and reading it back (shared state reached: buffer pool, datatype registry), compared with the sequential run; W2: 2-16 readers with their own Open handle on one file (corpus or library-written), six complete dumps each, compared with the sequential dump; in half of the cases every second reader also opens torn copies of the file (16 random cuts in its first 8 KiB and a cut at every byte of its first two object headers), whose failing Opens and reads run next to the healthy ones; W3: one WritableBTreeV2 with lazy + incremental rebalancing (ticker 1 us - 1 ms, budgets 1 us - 10 ms, with and without progress callback), ONE foreground goroutine doing 2000 (thorough 6000) inserts, lazy deletes across the batch threshold, statistics and progress queries, stop and re-enable; every stop must return, afterwards no library goroutine may be left (bounded wait 4 s); W4: SmartRebalancer (re-evaluation every 100 us; in half of the cases with a detector whose sliding window is 2 or 10 ms, with idle phases that let events expire followed by reader-only calls) over a real B-tree, 2-8 goroutines calling RecordOperation/Evaluate/GetStats/GetMetrics plus MetricsCollector.RecordOperation/Snapshot whose history is checked for linearizability against a counter model (porcupine), Stop, restart, cancel through the context, goroutine census; W5: FileWriter created with each rebalancing configuration, an attribute history with runtime toggles, background mode left running or not, Close, goroutine census; W6 (every sixth case): 150 (thorough 600) short lives of a SmartRebalancer whose first re-evaluation switches background rebalancing on, over a tree adapter whose size query takes 0-1 ms, Stop called before, during or after that re-evaluation: when Stop has returned the adapter must have been told to stop background rebalancing. " +
+	Rule: "all workloads run in a binary built with the race detector; every detector report is a violation keyed by the first library frames of its two stacks. W1: 2-32 goroutines, each writing its own file from its own history and reading it back (shared state reached: buffer pool, datatype registry), compared with the sequential run; W2: 2-16 readers with their own Open handle on one file (corpus or library-written), six complete dumps each, compared with the sequential dump; in half of the cases every second reader also opens torn copies of the file (16 random cuts in its first 8 KiB and a cut at every byte of its first two object headers), whose failing Opens and reads run next to the healthy ones; W3: one WritableBTreeV2 with lazy + incremental rebalancing (ticker 1 us - 1 ms, budgets 1 us - 10 ms, with and without progress callback), ONE foreground goroutine doing 2000 (thorough 6000) inserts, lazy deletes across the batch threshold, statistics and progress queries, stop and re-enable; every stop must return, afterwards no library goroutine may be left (bounded wait 4 s); W4: SmartRebalancer (re-evaluation every 100 us; in half of the cases with a detector whose sliding window is 2 or 10 ms, with idle phases that let events expire followed by reader-only calls) over a real B-tree, 2-8 goroutines calling RecordOperation/Evaluate/GetStats/GetMetrics plus MetricsCollector.RecordOperation/Snapshot whose history is checked for linearizability against a counter model (porcupine), Stop, restart, cancel through the context, goroutine census; W5: FileWriter created with each rebalancing configuration, an attribute history with runtime toggles, background mode left running or not, Close, goroutine census; W6 (every sixth case): 150 (thorough 600) short lives of a SmartRebalancer whose first re-evaluation switches background rebalancing on, over a tree adapter whose size query takes 0-1 ms, Stop called before, during or after that re-evaluation (one life in three is ended through its parent context first): when Stop has returned the adapter must have been told to stop background rebalancing. " +
 		"non-trivial: every case; distinct = (workload, parameters).",
 	Assumptions: []string{"the race detector generalises over orderings of the accesses it observed (happens-before), not over paths that were not executed"},
 	Cases: func(tier string) int {
